@@ -309,16 +309,16 @@ class Map(_Base):
             ({"type": "proxy", "prefix": "/", "upstream": "gemini://up.example/", "strip": False}, ["", "/", "//decoy.example:7070/x", "/@decoy.example", "/:7070", "/a b", "/?", "?q"]),
             ({"type": "proxy", "prefix": "", "upstream": "gemini://[::1]:7070/v6", "strip": True}, ["/x", "/"]),
         ]
+        det = [{"locs": [loc], "line": "gemini://front.example" + p} for loc, paths in fixed for p in paths]
+        det.append({"locs": [{"type": "static", "prefix": "/api/"}, {"type": "proxy", "prefix": "/api", "upstream": "gemini://up.example", "strip": True}, {"type": "static", "prefix": "/"}],
+                    "line": "gemini://front.example/api/x"})
+        det.append({"locs": [{"type": "proxy", "prefix": "/api", "upstream": "gemini://up.example", "strip": True}, {"type": "static", "prefix": "/api/"}], "line": "gemini://front.example/api/x"})
         cnt = 0
-        for loc, paths in fixed:
-            for p in paths:
-                yield {"locs": [loc], "line": "gemini://front.example" + p}
-                cnt += 1
-        yield {"locs": [{"type": "static", "prefix": "/api/"}, {"type": "proxy", "prefix": "/api", "upstream": "gemini://up.example", "strip": True}, {"type": "static", "prefix": "/"}],
-               "line": "gemini://front.example/api/x"}
-        yield {"locs": [{"type": "proxy", "prefix": "/api", "upstream": "gemini://up.example", "strip": True}, {"type": "static", "prefix": "/api/"}], "line": "gemini://front.example/api/x"}
+        for c in self.share(det):  # every process runs its part of the fixed list (harness/README "Sharding pitfall")
+            cnt += 1
+            yield c
         locs = None
-        for k in range(max(0, n - cnt - 2)):
+        for k in range(max(0, n - cnt)):
             if locs is None or k % 6 == 0:
                 locs = gen_locs(rng)
             yield {"locs": locs, "line": gen_line(rng, locs)}
